@@ -17,6 +17,7 @@ import (
 	"testing"
 
 	"github.com/tsawler/tabula"
+	"github.com/tsawler/tabula/pptx"
 	"pgregory.net/rapid"
 
 	"verif/harness/gen/pptxw"
@@ -26,6 +27,7 @@ import (
 type PPTXCase struct {
 	Deck   pptxw.Deck `json:"deck"`
 	Option string     `json:"option"` // both | footers
+	Seq    []int      `json:"seq"`    // calls made on one shared pptx.Reader (indices into a fixed list)
 }
 
 func init() { vr.Register("pptx", checkPPTX) }
@@ -85,6 +87,41 @@ func checkPPTX(c PPTXCase) error {
 			return fmt.Errorf("%s(): a deck without footer placeholders came back changed under exclusion (%s)", view, c.Option)
 		}
 	}
+	// one pptx.Reader asked several times, with and without exclusion in turn: every answer is the one a reader
+	// gives that was asked nothing else
+	plain := pptx.ExtractOptions{IncludeTitles: true}
+	excl := pptx.ExtractOptions{IncludeTitles: true, ExcludeFooters: true, ExcludeHeaders: c.Option == "both"}
+	type ask struct {
+		name string
+		run  func(r *pptx.Reader) (string, error)
+	}
+	asks := []ask{
+		{"TextWithOptions(plain)", func(r *pptx.Reader) (string, error) { return r.TextWithOptions(plain) }},
+		{"TextWithOptions(exclusion)", func(r *pptx.Reader) (string, error) { return r.TextWithOptions(excl) }},
+		{"MarkdownWithOptions(plain)", func(r *pptx.Reader) (string, error) { return r.MarkdownWithOptions(plain) }},
+		{"MarkdownWithOptions(exclusion)", func(r *pptx.Reader) (string, error) { return r.MarkdownWithOptions(excl) }},
+	}
+	alone := make([]string, len(asks))
+	for k, a := range asks {
+		r, err := pptx.Open(path)
+		if err != nil {
+			return fmt.Errorf("pptx.Open failed on a valid deck: %v", err)
+		}
+		alone[k], _ = a.run(r)
+		r.Close()
+	}
+	shared, err := pptx.Open(path)
+	if err != nil {
+		return fmt.Errorf("pptx.Open failed on a valid deck: %v", err)
+	}
+	defer shared.Close()
+	for step, k := range c.Seq {
+		k %= len(asks)
+		got, _ := asks[k].run(shared)
+		if got != alone[k] {
+			return fmt.Errorf("one pptx.Reader, call %d = %s (after %v): the answer differs from that of a fresh reader:\n got  %q\n want %q", step+1, asks[k].name, c.Seq[:step], got, alone[k])
+		}
+	}
 	return nil
 }
 
@@ -92,6 +129,10 @@ func genPPTX(t *rapid.T) PPTXCase {
 	n := 0
 	text := func(*rapid.T, string) string { n++; return fmt.Sprintf("tok%03dz", n) }
 	c := PPTXCase{Deck: pptxw.GenDeck(t, 4, text), Option: rapid.SampledFrom([]string{"both", "footers"}).Draw(t, "option")}
+	for i := range c.Deck.Slides {
+		c.Deck.Slides[i].FootersFirst = rapid.Bool().Draw(t, "footersFirst")
+	}
+	c.Seq = rapid.SliceOfN(rapid.IntRange(0, 3), 2, 6).Draw(t, "seq")
 	return c
 }
 
